@@ -474,6 +474,11 @@ def it_cloned(vm, m, callee, args):
     return Iter('cloned', inner=args[0])
 
 
+@native(r'^bitvec::.*::by_vals$|^bitvec::.*::by_refs$', 'bit iterators yield the bits')
+def bits_by_vals(vm, m, callee, args):
+    return args[0]
+
+
 @native(r' as Iterator>::flatten$', 'Iterator::flatten over Options')
 def it_flatten(vm, m, callee, args):
     return Iter('flatten', inner=args[0])
@@ -501,6 +506,8 @@ def it_items(vm, m, it):
     k = it.kind
     if k == 'owned':
         return [(T, x) for x in it.items[it.pos:]], None
+    if k == 'cond':
+        return list(it.items), None
     if k == 'slice':
         seq = seq_of(vm, it.ref)
         base = it.ref
@@ -620,7 +627,21 @@ def it_next(vm, m, callee, args, no_panic=False):
         return NONE()
     c0, v0 = items[0]
     if is_concrete_bool(c0) is not True:
-        raise Unsupported('next() on a filtered stream')
+        # filtered / flattened stream: which element comes first is symbolic. The result is Some(first present element)
+        # and the iterator keeps every element that is present *and* not the first present one (cursor-free form).
+        if pan is not None and not no_panic and is_concrete_bool(pan) is not False:
+            fork_on_panic(pan, lambda m2, a2: it_next(vm, m2, callee, a2, True))
+        alts, seen, rest = [], BoolVal(False), []
+        for c, v in items:
+            first = And(c, Not(seen))
+            alts.append((first, some(v)))
+            rest.append((And(c, seen), v))
+            seen = Or(seen, c)
+        alts.append((Not(seen), NONE()))
+        it.__dict__.clear()
+        it.kind = 'cond'
+        it.items = rest
+        return SymEnum('Option', alts)
     # only the first element is evaluated by next(): re-evaluate its closure alone for the panic condition
     first_pan = None
     if isinstance(it, Iter) and it.kind == 'map':
